@@ -2,6 +2,7 @@
 # runs every claimed check (quick tier by default) and prints one line per property
 cd /verif
 TIER=${1:-quick}
+python3 tools/lint_tags.py 2>&1 | tail -1
 for p in $(python3 -c "import json;print(' '.join(c['property_id'] for c in json.load(open('MANIFEST.json'))['checks']))"); do
   s=$(date +%s)
   out=$(./check $p --tier $TIER 2>&1); rc=$?
